@@ -1,4 +1,4 @@
-import OpdaModel.Drv.Emp
+import OpdaModel.Drv.All
 /-!
 Model driver: one request per line `<case-id> <op> <args…>`, one reply per line
 `<case-id> ok <values…>` or `<case-id> reject`.  Unknown or malformed requests are rejected, never
@@ -6,17 +6,12 @@ defaulted.
 -/
 open Opda
 
-def dispatch (op : String) (args : List String) : Option String :=
-  match op.splitOn "." with
-  | ["emp", fn] => Drv.Emp.handle fn args
-  | _ => none
-
 partial def loop (h : IO.FS.Stream) (out : IO.FS.Stream) : IO Unit := do
   let line ← h.getLine
   if line.isEmpty then return ()
   match (line.trimAscii.toString.splitOn " ").filter (· ≠ "") with
   | id :: op :: args =>
-    match dispatch op args with
+    match Drv.dispatch op args with
     | some r => out.putStrLn s!"{id} ok {r}"
     | none => out.putStrLn s!"{id} reject"
   | _ => out.putStrLn "? reject"
